@@ -1043,7 +1043,7 @@ def _apply_alias(flow, alias):
     return flow
 
 
-def _run_flow(el, element, clock, root, specs, idxs, is_b, alias):
+def _run_flow(el, element, clock, root, specs, idxs, is_b, alias, earlier):
     """one run of the (possibly already used) element object over the values built from `specs`"""
     import contextlib
     import io
@@ -1101,7 +1101,9 @@ def _run_flow(el, element, clock, root, specs, idxs, is_b, alias):
         if has_ctx(o):
             r["d"] = enc_data(o[0], root, text_kind)
             j = cids.get(id(o[1]))
-            ct = 2 * idxs[j] + 1 if j is not None and flow[j][1] is o[1] else "new"
+            # (a context object of an earlier flow of the same element object: LaTeXToPDF's pool keeps them)
+            ct = (2 * idxs[j] + 1 if j is not None and flow[j][1] is o[1] else
+                  earlier["ctx"].get(id(o[1]), "new"))
             plain = _plain(o[1], root)
             r["c"] = {"t": ct, "v": _reduce_gp(plain) if gp and "group" in plain else _mask(plain)}
         else:
@@ -1140,6 +1142,10 @@ def _run_flow(el, element, clock, root, specs, idxs, is_b, alias):
     for i in range(pulled):
         hi = marks[i + 1] if i + 1 < len(marks) else len(outs)
         prod_blocks.append([enc_deep(outs[p], root) for p in range(marks[i], hi)])
+    for i, v in enumerate(flow):
+        if has_ctx(v):
+            earlier["ctx"].setdefault(id(v[1]), 2 * idxs[i] + 1)
+    earlier["alive"].append(flow)
     return {"blocks": blocks, "tail": tail, "err": err, "fs": snapshot(root), "b": b_report,
             "produced": produced, "deep_blocks": prod_blocks,
             "deep_tail": [enc_deep(o, root) for o in outs[marks[len(flow)]:]] if exhausted else [],
@@ -1168,8 +1174,9 @@ def _run_once(case, runs):
             warnings.simplefilter("ignore")
             element, cleanup = make_element(el, root, tdir, clock)
         results = []
+        earlier = {"ctx": {}, "alive": []}
         for specs, idxs, is_b, alias in runs:
-            results.append(_run_flow(el, element, clock, root, specs, idxs, is_b, alias))
+            results.append(_run_flow(el, element, clock, root, specs, idxs, is_b, alias, earlier))
         results[0]["fs0"] = fs0
         return results
     finally:
